@@ -94,3 +94,32 @@ func emptyCRC(crcType CRCType) (arr []byte, err error) {
 
 	return
 }
+
+// checkReceivedCRC verifies the CRC value of a received block. The data must be exactly the block's received bytes,
+// ending with the CRC value itself. As defined in section 4.1.1, the CRC is calculated over those bytes with the CRC
+// value being temporarily replaced by zeros.
+func checkReceivedCRC(data []byte, crcType CRCType, crcVal []byte) error {
+	empty, typeErr := emptyCRC(crcType)
+	if typeErr != nil {
+		return typeErr
+	} else if len(crcVal) != len(empty) || len(data) < len(empty) {
+		return fmt.Errorf("invalid CRC value: %d bytes instead of %d bytes", len(crcVal), len(empty))
+	}
+
+	block := make([]byte, len(data))
+	copy(block, data)
+	copy(block[len(block)-len(empty):], empty)
+
+	switch crcType {
+	case CRC16:
+		binary.BigEndian.PutUint16(empty, crc16.Checksum(block, crc16table))
+
+	case CRC32:
+		binary.BigEndian.PutUint32(empty, crc32.Checksum(block, crc32table))
+	}
+
+	if !bytes.Equal(empty, crcVal) {
+		return fmt.Errorf("invalid CRC value: %x instead of expected %x", crcVal, empty)
+	}
+	return nil
+}
